@@ -222,9 +222,12 @@ CLAIMED = {
         "TLC exhibits the stale-value families for the as-is scheme and passes for the repaired one, and exports witness "
         "histories. Twin pipelines (cached / uncached) over simple/lru/hybrid/disk caches and every cached subset are driven "
         "through TLC-exported and seeded random histories; TLC validates the cached twin's events (TracePipelineCache.tla).",
-   note="Map side (_get_or_set_cache; design finding F25: `if key in cache: return cache.get(key)` can hand None to the "
-        "caller after an eviction) is an extension point, not claimed. Eviction is not modelled; it only limits when the "
-        "no-re-execution obligation applies.",
+   note="Map side: MapRun.tla models cache hits (Hits/Memo/Avail: an invocation may be answered from the cache iff an equal-"
+        "kwargs invocation of the same function completed before, in this or an earlier run with the same cache); pipelines "
+        "with simple/lru/hybrid/disk caches are mapped twice over inputs with repeated values, sequentially and through a "
+        "thread pool with a shared cache, and TLC validates the histories (TraceMapRun). Not covered: resources in the map "
+        "cache key; the check-then-get idiom of _get_or_set_cache under eviction (design finding F25, CacheConc "
+        "NoNoneServed). Eviction is not modelled; it only limits when the no-re-execution obligation applies.",
    technique="TLA+ cache-coherence model checked by TLC; twin-pipeline histories validated by TLC"),
  "C18": dict(
    category="model_checking", design_ref="6 C18",
